@@ -48,6 +48,7 @@ def generate(seed, tier):
     n = S['swarm'].choice([2, 2, 3])
     codes = S['swarm'].sample(['CA', 'US', 'JP', 'UK'], n)
     econs = []
+    transfers = S['swarm'].random() < 0.3
     for i, code in enumerate(codes):
         kind = S['swarm'].choice(['closed', 'closed_fin', 'capitalists', 'pc', 'builder:SIM', 'builder:SIMEX1', 'builder:PC',
                                   'federated'])
@@ -59,6 +60,9 @@ def generate(seed, tier):
             # that the same code names different kinds of sector in different economies of the model
             e['names'] = S['swarm'].choice([{'GOV': 'HH', 'HH': 'GOV'}, {'GOV': 'BUS', 'BUS': 'GOV'}, {'HH': 'TF', 'TF': 'HH'},
                                             {'GOV': 'HH', 'HH': 'PS'}])
+        if kind in ('closed', 'closed_fin', 'capitalists') and transfers:
+            # a domestic transfer registered with Model.RegisterCashFlow under the same variable name in every economy
+            e['transfer'] = True
         econs.append(e)
     if S['swarm'].random() < 0.2:
         # currency names are plain strings: 'kr', 'Kr' and 'KR' are three different currencies
@@ -287,6 +291,15 @@ def economy_ops(e, T, tight, standalone):
     for op in sub:
         if op['op'] in ('Country', 'Region') and op.get('currency') is None and op['id'] in decl.countries:
             op['currency'] = decl.countries[op['id']]['currency']
+    if e.get('transfer'):
+        gov = [o['id'] for o in sub if o['op'] in ('ConsolidatedGovernment', 'Treasury')]
+        hh = [o['id'] for o in sub if o['op'] in ('Household', 'HouseholdWithExpectations')]
+        if gov and hh:
+            St = core.Streams(e['seed'])
+            vals = econgen.path(St['transfer'], T, 0.5, 6.0, digits=1)
+            sub += [{'op': 'AddVariable', 'sector': gov[0], 'name': 'TRANSFER', 'eqn': '0.0'},
+                    {'op': 'SetExogenous', 'sector': gov[0], 'var': 'TRANSFER', 'value': vals},
+                    {'op': 'RegisterCashFlow', 'model': 'm0', 'source': gov[0], 'target': hh[0], 'var': 'TRANSFER'}]
     out = []
     pre = 'e_%s_' % code
     for op in sub:
